@@ -11,6 +11,17 @@ def run(c, a):
     c.build_harness()
     if a.replay:
         return replay_std(c, c.load_replay(a.replay))
-    ev = run_std(c, "weak", prop="C12")
+    ev1 = run_std(c, "weak", prop="C12")
+    # domain-shaped argument lists of the collection functions (C13Gen) as further concrete bases
+    from checks.c13 import FNS
+    jobs, outs = [], []
+    for fn in FNS[:-2]:
+        out = c.path("c13wvec-%s.ndjson" % fn)
+        jobs.append(("C13Gen", {"VFN": fn, "VMODE": "weak", "VTIER": c.tier, "VOUT": out}))
+        outs.append(out)
+    c.gen_parallel(jobs)
+    pairs = [(o, o.replace("c13wvec-", "c13wev-")) for o in outs]
+    c.harness_parallel("ops", pairs, args=["prop=C12"])
+    ev = c.concat([p[1] for p in pairs] + [ev1], c.path("c12events.ndjson"))
     c.sample_events(ev, 2, lambda l: '"ok":true' in l and '"fn:' in l and '"st":"unk"' in l)
     c.trace("StdlibTrace", ev)
